@@ -262,8 +262,21 @@ func runCheck(args []string) {
 		violLines = append(violLines, fmt.Sprintf("VIOLATION property=%s replay=%s%s", ps.ID, rp, suffix))
 	}
 	// a known finding whose obligation now passes is simply not reported
-	for _, fe := range funcErrs {
+	for i, fe := range funcErrs {
 		fmt.Println("ERROR", fe)
+		// A function under contract whose contract no longer applies (function renamed or removed, a
+		// variable the contract names is gone) leaves every clause anchored in it undecided: the
+		// obligation "<function>/contract-applies" passed on the unchanged tree and fails now.
+		nObl++
+		nViol++
+		os.MkdirAll(replayDir, 0o755)
+		rp := filepath.Join(replayDir, fmt.Sprintf("contract_applies_%d.json", i))
+		rb, _ := json.MarshalIndent(map[string]any{
+			"property": ps.ID, "obligation": "contract-applies", "kind": "contract-applies", "verdict": "undecided",
+			"reason": fe, "replay": map[string]any{"attempted": false, "reason": "no obligation could be generated, so there is no counterexample to replay"},
+		}, "", " ")
+		os.WriteFile(rp, rb, 0o644)
+		violLines = append(violLines, fmt.Sprintf("VIOLATION property=%s replay=%s no-failing-input-found", ps.ID, rp))
 	}
 	sort.Strings(violLines)
 	for _, l := range violLines {
@@ -331,7 +344,7 @@ func runCheck(args []string) {
 	os.WriteFile(filepath.Join(*root, "evidence", ps.ID+".json"), eb, 0o644)
 	fmt.Printf("%s %s: %d obligations, %d discharged, %d violations, %d known findings, %.1fs (load %.1fs)\n", ps.ID, *tier, nObl, nOK, nViol, len(knownHit), time.Since(t0).Seconds(), loadS)
 	if len(funcErrs) > 0 {
-		os.Exit(2)
+		os.Exit(1)
 	}
 	if nObl < ps.Floor {
 		fmt.Printf("ERROR obligation count %d below floor %d (vacuity guard)\n", nObl, ps.Floor)
